@@ -48,6 +48,15 @@ CHECKS = {
     "C20": ("independent reachability + straight-line matcher on the reference instruction graph vs. match_regex",
             "exploration over fragment programs x labels x generated patterns",
             "instruction-level control flow taken as the intra-procedural relation (callsub continues at the next instruction)", "5/C20"),
+    "C12": ("structural monitor on construct_function results + context soundness restricted to executions starting with the dispatch path + build-order independence + deep dump of the contract graph",
+            "exploration over fragment programs x dispatch-path prefixes (bounded) x build orders",
+            "trusts vt/ref/avm.py; main-level block sequence of an execution computed from its pc trace", "5/C12"),
+    "C14": ("canonical-dump equality across fresh processes (PYTHONHASHSEED sweep), callee-enumeration orders, in-process histories and detector permutations/repetitions",
+            "exploration of the perturbation space that set iteration really controls",
+            "dump = vt/mon/dump.py (contexts as sets, paths and JSON text literally); callee order perturbed by a harness wrapper", "5/C14"),
+    "C15": ("metamorphic monitor: original vs. rewritten source through the rewriter's instruction map",
+            "exploration over fragment programs x compositions of the listed rewrites",
+            "rewriters of vt/gen/rewrite.py, cross-checked per case with the reference interpreter", "5/C15"),
 }
 
 
